@@ -10,7 +10,8 @@ SHARDS = {'quick': 4, 'thorough': 16}
 RULE = (
     'Metamorphic: the same wall-clock record (G-series with steps 600/1200/1800/3600 s and increments exactly equal '
     'to threshold x step built around level 0 so that the tie survives rounding; G-planted for the master curves) is '
-    'loaded 4 times: at a base origin, shifted by a whole number of steps (1 step ... decades: origins 1971-2037, i.e. '
+    'loaded 4 times: at a base origin, shifted by a whole number of steps (1 step ... decades: origins 1955-2037, also '
+    'straddling epoch 0, i.e. '
     'different binades of epoch/3600), and declared in two other fixed-offset zones (Etc/GMT+-N, Asia/Kolkata, '
     'Asia/Kathmandu, Africa/Lagos).  Each load goes through classify, set-zeta-grid, rise, recession; the full '
     'logical dump of every table, with all epoch columns re-based on the first grid instant, must be identical, the first '
@@ -45,7 +46,7 @@ EPOCH_COLS = {
 }
 FLOAT_TABLES = {'rising_interval', 'recession_interval', 'rising_interval_zeta', 'recession_interval_zeta'}
 ZONES = ['UTC', 'Etc/GMT+5', 'Etc/GMT-7', 'Etc/GMT-12', 'Asia/Kolkata', 'Asia/Kathmandu', 'Africa/Lagos', 'Etc/GMT+11']
-ORIGINS = ['1971-02-03 00:00:00', '1996-06-01 12:00:00', '2013-07-07 06:00:00', '2021-03-01 00:00:00',
+ORIGINS = ['1969-12-31 18:00:00', '1955-05-05 00:00:00', '1971-02-03 00:00:00', '1996-06-01 12:00:00', '2013-07-07 06:00:00', '2021-03-01 00:00:00',
            '2037-11-30 18:00:00', '2004-02-29 00:00:00']
 
 
